@@ -1,4 +1,4 @@
-import Sif.Proofs.C01Hooks
+import Sif.Proofs.C01Lppd
 import Sif.Model.Clp.Machine
 /-
   C01 — AMM solvency: for every token the coins held by the liquidity-pool module account cover
@@ -12,21 +12,20 @@ open Sif Sif.Clp Sif.AList Sif.Spec.C01
 theorem solvent_init : Solv ({} : St) := solv_init
 
 /-- hypotheses on one operation: messages are signed by ordinary accounts (the module account has
-    no key); `fund` (coins arriving from outside the AMM) never takes coins from the module.
-    `endBlock` is covered by `endBlock_solvent_Statement` below (not proved yet). -/
-def OpOK : Op → Prop
+    no key); for the block hook the LPPD block rate lies in [0,1] (validation enforces it) and, in
+    distribute mode, every rewarded pool has a provider record (`EndBlockOK`). -/
+def OpOK (s : St) : Op → Prop
   | .create a _ _ _ | .add a _ _ _ | .swap a _ _ _ _ | .bucket a _ _ => a ≠ clpAcct
-  | .endBlock => False
+  | .endBlock => EndBlockOK s
   | _ => True
 
-/-- full statement for the block hook (provider distribution + depth rewards), still unproved:
-    it needs the clamp lemma Σ provider amounts ≤ rnd(rate·balance) ≤ balance for rates in [0,1]
-    and, in distribute mode, that every rewarded pool has a provider record -/
-def endBlock_solvent_Statement : Prop :=
-  ∀ s s', Solv s → endBlocker s = .ok s' → Solv s'
+def RunOK : St → List Op → Prop
+  | _, [] => True
+  | s, op :: rest => OpOK s op ∧ RunOK (step s op) rest
 
-/-- every message and the epoch hook preserve solvency -/
-theorem step_solvent (s : St) (op : Op) (hinv : Solv s) (hok : OpOK op) : Solv (step s op) := by
+/-- every message and both hooks (epoch payout; provider distribution + depth rewards) preserve
+    solvency -/
+theorem step_solvent (s : St) (op : Op) (hinv : Solv s) (hok : OpOK s op) : Solv (step s op) := by
   cases op with
   | create a sym n e =>
     simp only [step, txR]; split
@@ -56,7 +55,10 @@ theorem step_solvent (s : St) (op : Op) (hinv : Solv s) (hok : OpOK op) : Solv (
     simp only [step, txR]; split
     · exact addToBucket_solv hok hinv ‹_›
     · exact hinv
-  | endBlock => exact absurd hok id
+  | endBlock =>
+    simp only [step, hookM]; split
+    · exact endBlocker_solv hok hinv ‹_›
+    · exact hinv
   | epochEnd =>
     simp only [step, hookM]; split
     · exact afterEpochEnd_solv hinv ‹_›
@@ -79,14 +81,16 @@ theorem step_solvent (s : St) (op : Op) (hinv : Solv s) (hok : OpOK op) : Solv (
     · exact this
 
 /-- solvency in every reachable state, for histories of any length -/
-theorem reachable_solvent_partial (ops : List Op) (s : St) (hinv : Solv s) (hok : ∀ op ∈ ops, OpOK op) :
+theorem reachable_solvent (ops : List Op) (s : St) (hinv : Solv s) (hok : RunOK s ops) :
     Solv (run s ops) := by
   induction ops generalizing s with
   | nil => exact hinv
   | cons op rest ih =>
     unfold run; simp only [List.foldl]
-    exact ih (step s op) (step_solvent s op hinv (hok op (List.mem_cons_self ..)))
-      (fun o ho => hok o (List.mem_cons_of_mem _ ho))
+    exact ih (step s op) (step_solvent s op hinv hok.1) hok.2
+
+theorem reachable_solvent_from_genesis (ops : List Op) (hok : RunOK {} ops) : Solv (run {} ops) :=
+  reachable_solvent ops {} solv_init hok
 
 /-- the Boolean the judge evaluates on implementation states is implied by the invariant -/
 theorem solvent_bool_of_solv (s : St) (h : Solv s) : solvent s = true := by
